@@ -75,12 +75,14 @@ Bound == 6          \* C05: 6 * MaxPacketBodySize (+ 1 MiB constant slack, see F
 \* pay  content class: "empty", "bad" (not JSON), "wrong" (JSON of another shape), "good", "huge",
 \*      and the JSON edge forms "null" (null, also inside white space), "scalar" (true, 0, "str"),
 \*      "emptyobj" ({}), "array" ([], [{}]), "nested" (nesting deeper than any decoder allows),
-\*      "dupkeys" (duplicate members), "bignum" (numbers outside every Go type), "badutf8"
+\*      "dupkeys" (duplicate members), "bignum" (numbers outside every Go type), "badutf8",
+\*      "short" (bodies of 1..5 bytes that are prefixes of multi-byte markers: BOMs, truncated
+\*      UTF-8 sequences, gzip magic, JSON openers, 00, FF - enumerated concretely by the driver)
 U(sc) == IF sc = "MAX" THEN 1 ELSE 0
 Bombs == {"bomb", "forged", "multi"}          \* gzip bodies whose output exceeds the limit
-Edge  == {"null", "scalar", "emptyobj", "array", "nested", "dupkeys", "bignum", "badutf8"}
+Edge  == {"null", "scalar", "emptyobj", "array", "nested", "dupkeys", "bignum", "badutf8", "short"}
 \* json.Unmarshal into packet.CommandPacket fails for these (the reader decodes command kinds itself)
-NotACommand == {"empty", "bad", "wrong", "scalar", "array", "nested", "bignum"}
+NotACommand == {"empty", "bad", "wrong", "scalar", "array", "nested", "bignum", "short"}
 OutU(fr) == IF ~fr.z THEN U(fr.sc)
             ELSE CASE fr.gz = "big" -> 1 [] fr.gz \in Bombs -> 10 [] OTHER -> U(fr.sc)
 
